@@ -21,6 +21,34 @@ EXPLANATION = (
     "of the entry point that was running.  Not claimed: UB that neither CBMC nor a sanitizer observes (DESIGN 4/C07).")
 
 
+def _uninit_differential(rep):
+    """Reads of uninitialised automatic storage: the same driver is built twice, with every automatic variable that has no
+    initialiser filled with a byte pattern resp. with zeros (gcc -ftrivial-auto-var-init=pattern|zero); a program whose
+    observable results differ between the two builds reads such a variable.  Applied to the DIMACS reader (the one entry
+    point that parses into locals through sscanf): digest over every parsed graph of the grammar enumerator."""
+    import subprocess, time
+    t0 = time.time()
+    outs = {}
+    for mode in ("pattern", "zero"):
+        b = native.build("uninit_%s_e3_dimacs" % mode, source=os.path.join(VERIF, "harness/e3_dimacs.cpp"),
+                         flags=("-ftrivial-auto-var-init=%s" % mode,), opt="-O1")
+        p = subprocess.run([b, "--shard", "0/1"], stdout=subprocess.PIPE, stderr=subprocess.STDOUT, text=True, errors="replace", timeout=1200,
+                           env=dict(os.environ, VERIF_TIER="quick"))
+        dg = [l for l in p.stdout.splitlines() if l.startswith("VP-DIGEST ")]
+        outs[mode] = dg[0] if dg and p.returncode in (0, 1) else "no digest (exit %s)" % p.returncode
+    viol = []
+    if outs["pattern"] != outs["zero"] and all(o.startswith("VP-DIGEST") for o in outs.values()):
+        viol.append(dict(site="read_dimacs_from_file", kind="uninitialised-read",
+                         what="the graphs parsed from the enumerated DIMACS texts differ between a build that fills uninitialised automatic variables with a byte pattern and one that fills them with zeros (%s vs %s): an uninitialised local is read" % (outs["pattern"], outs["zero"]),
+                         no_input=True, data=dict(digests=outs, how="g++ -ftrivial-auto-var-init=pattern|zero, harness/e3_dimacs.cpp --shard 0/1")))
+    und = [o for o in outs.values() if not o.startswith("VP-DIGEST")]
+    rep.add_bounded(dict(driver="e3_dimacs[auto-var-init differential]", status="undecided" if und else ("violated" if viol else "ok"), reason="; ".join(und) if und else None,
+                         evaluations=2, distinct=2, violations=viol, wall_s=round(time.time() - t0, 2),
+                         rule="two builds of the DIMACS grammar enumerator (uninitialised automatics = 0xFE.. pattern / = 0), digests of all parsed graphs compared",
+                         functions={"read_dimacs_from_file (uninitialised reads)": "bounded(grammar enumerator, quick set)"}, assumptions=["gcc's -ftrivial-auto-var-init covers automatic variables only"],
+                         entry_points=["read_dimacs_from_file"], samples=[outs["pattern"]]))
+
+
 def run(rep):
     t = tier()
     specs = []
@@ -58,3 +86,4 @@ def run(rep):
                               assumptions=["libtbb and libstdc++ are not instrumented"], entry_points=[d["name"][4:]])
         r["violations"] = [v for v in r["violations"] if v["kind"] == "crash"]
         rep.add_bounded(r)
+    _uninit_differential(rep)
